@@ -36,9 +36,11 @@ from .trait_handler import TraitHandler
 CallableTypes = (FunctionType, MethodType)
 
 # Mapping of coercable types.
+# The types following the ``None`` marker are coerced to the first type; types
+# preceding it would be accepted unchanged.
 CoercableTypes = {
-    float: (ValidateTrait.coerce, float, int),
-    complex: (ValidateTrait.coerce, complex, float, int),
+    float: (ValidateTrait.coerce, float, None, int),
+    complex: (ValidateTrait.coerce, complex, None, float, int),
 }
 
 _WARNING_FORMAT_STR = ("'{handler}' trait handler has been deprecated. "
